@@ -9,14 +9,14 @@ From DD Require Import Vars.
     explicitly. *)
 Definition vstate (vm lm : gmap nat nat) (k : nat) : st :=
   St {[1%positive := tterm k]} {[tterm k := 1%positive]} {[1%positive := 1]}
-     2%positive ∅ vm lm None false [] [] None.
+     2%positive ∅ vm lm None false [] [] None None.
 
 Lemma st_ext (a b : st) :
   succ a = succ b → pred a = pred b → refc a = refc b → min_free a = min_free b →
   ite_tab a = ite_tab b → vars a = vars b → lvl2var a = lvl2var b →
   last_len a = last_len b → rctx a = rctx b → roots a = roots b → tape a = tape b →
-  trig a = trig b → a = b.
-Proof. destruct a, b. cbn. by intros -> -> -> -> -> -> -> -> -> -> -> ->. Qed.
+  trig a = trig b → max_nodes a = max_nodes b → a = b.
+Proof. destruct a, b. cbn. by intros -> -> -> -> -> -> -> -> -> -> -> -> ->. Qed.
 
 Lemma init_vstate : init = vstate ∅ ∅ 0.
 Proof.
@@ -229,6 +229,7 @@ Theorem manager_roundtrip s vorder mf sd s0 :
     min_free s1 = min_free s ∧ vars s1 = vars s ∧ lvl2var s1 = lvl2var s ∧
     roots s1 = roots s ∧ ite_tab s1 = ∅ ∧
     last_len s1 = None ∧ rctx s1 = false ∧ trig s1 = None ∧
+    max_nodes s1 = max_nodes s ∧
     Inv s1 ∧ ∀ u ρ, denv s1 u ρ = denv s u ρ.
 Proof.
   intros HI. unfold dump_manager. cbn [bind get].
@@ -239,7 +240,7 @@ Proof.
   unfold load_manager. cbn [bind modify mf_vars].
   rewrite (bind_ok _ _ _ _ _ (init_levels_file s HI vl Hvl)).
   cbn [bind modify]. eexists. split; [reflexivity|].
-  cbn [mf_roots mf_pred mf_succ mf_ref mf_min_free].
+  cbn [mf_roots mf_pred mf_succ mf_ref mf_min_free mf_max_nodes].
   split_and!; try reflexivity.
   - eapply (Inv_same (clr s)); [|by apply Inv_W]. by repeat split.
   - intros u ρ. unfold denv. by apply D_same.
@@ -502,16 +503,18 @@ Proof. unfold denv. by apply D_same. Qed.
 
 (** ** Receivers of a load *)
 
-(** receivers: consistent, the variable order of [s], reordering disabled *)
+(** receivers: consistent, the variable order of [s], reordering disabled,
+    no bound on the number of nodes *)
 Definition recv (s r : st) : Prop :=
-  Inv r ∧ vars r = vars s ∧ lvl2var r = lvl2var s ∧ last_len r = None.
+  Inv r ∧ vars r = vars s ∧ lvl2var r = lvl2var s ∧ last_len r = None ∧
+  max_nodes r = None.
 
 Lemma recv_nvars s r : recv s r → nvars r = nvars s.
 Proof. intros (_&E&_). unfold nvars. by rewrite E. Qed.
 
 Lemma recv_step s r r' : recv s r → Inv r' → extends r r' → frame r r' → recv s r'.
 Proof.
-  intros (_&E1&E2&E3) HI' (_&Ev&El) (Ef&_). split_and!; [done|congruence..].
+  intros (_&E1&E2&E3&E4) HI' (_&Ev&El) (Ef&_&_&_&Em). split_and!; [done|congruence..].
 Qed.
 
 (** a loaded table in a receiver with the SAME variable order: every file
@@ -598,7 +601,7 @@ Lemma load_rec_spec fuel : ∀ u umap r,
     same_fun s r' u p.
 Proof.
   induction fuel as [|f IH]; intros u umap r Hrecv Hv Hin Hum Hf; [lia|].
-  pose proof Hrecv as (HIr&Evars&El2v&Hoff).
+  pose proof Hrecv as (HIr&Evars&El2v&Hoff&Hmx).
   cbn [load_rec]. rewrite decide_False by apply Hv.
   destruct (decide (absn u = 1%positive)) as [E1|Hn1].
   { exists u, umap, r. split; [done|]. split; [done|]. split; [reflexivity|].
@@ -636,7 +639,7 @@ Proof.
       as (q&um2&r2&E2&Hrecv2&He2&Hf2&Hum2&Hd2&_&Hq).
     { rewrite Hlvl in Hf. pose proof (cnt_lt sl _ t (lvl_of s (t_hi t)) Hint Hlh). lia. }
     rewrite (bind_ok _ _ _ _ _ E2).
-    pose proof Hrecv1 as (HI1&_). pose proof Hrecv2 as (HI2&Ev2&El2&Hoff2).
+    pose proof Hrecv1 as (HI1&_). pose proof Hrecv2 as (HI2&Ev2&El2&Hoff2&Hmx2).
     assert (Hp2 : same_fun s r2 (t_lo t) p) by (by apply (same_fun_extends s r1 r2)).
     assert (Hj2 : j < nvars r2).
     { apply (inv_lvls _ HI2). rewrite El2. by eexists. }
@@ -645,16 +648,16 @@ Proof.
     pose proof Eg as Eg'.
     apply find_or_add_spec in Eg' as (HI3&He3&Hf3&Hg);
       [|done|by apply valid_m1|by apply valid_1|by rewrite (lvl_term r2 HI2)..].
-    destruct rg as [g|e]; [|destruct Hg as (_&[? Hll']&_); congruence].
+    destruct rg as [g|e]; [|by destruct (benign_never r2 e Hoff2 Hmx2 (proj1 Hg))].
     destruct Hg as (Hgv&_&HgD).
     rewrite (bind_ok _ _ _ _ _ Eg).
     assert (Hrecv3 : recv r0 r3) by (by apply (recv_step r0 r2 r3)).
-    pose proof Hrecv3 as (_&_&_&Hoff3).
+    pose proof Hrecv3 as (_&_&_&Hoff3&Hmx3).
     assert (Hq3 : valid r3 q) by (apply (valid_extends r2 r3); [done|apply Hq]).
     assert (Hp3 : valid r3 p) by (apply (valid_extends r2 r3); [done|apply Hp2]).
     (* [ite] on it *)
     destruct (ite g q p r3) as [rw r4] eqn:Ew.
-    destruct (ite_spec_off r3 g q p rw r4 HI3 Hgv Hq3 Hp3 Hoff3 Ew)
+    destruct (ite_spec_off r3 g q p rw r4 HI3 Hgv Hq3 Hp3 Hoff3 Hmx3 Ew)
       as (w&->&HI4&He4&Hf4&Hwv&HwD).
     rewrite (bind_ok _ _ _ _ _ Ew).
     assert (Hrecv4 : recv r0 r4) by (by apply (recv_step r0 r3 r4)).
@@ -783,7 +786,7 @@ Lemma load_pickle_from s pf roots (levels : bool) r00 r lm :
   Inv s → Forall (valid s) (roots_values roots) → pf_roots pf = roots →
   nodes_file s (pf_succ pf) →
   (∀ u, u ∈ roots_values roots → absn u ∈ (pf_succ pf).*1) →
-  Inv r →
+  Inv r → max_nodes r = None →
   foldM (fun (lm : gmap nat nat) '(v, i) =>
             assert (bool_decide (i < length (pf_vars pf))) ;;;
             j <- add_var v (if levels then Some i else None) ;;
@@ -792,7 +795,7 @@ Lemma load_pickle_from s pf roots (levels : bool) r00 r lm :
   ∃ roots' r', load_pickle pf levels r00 = (Ok roots', r') ∧
     Inv r' ∧ extends r r' ∧ frame r r' ∧ roots_rel (same_fun s r') roots roots'.
 Proof.
-  intros HI Hr Eroots Hnf Hrin HIr Elm Hlm.
+  intros HI Hr Eroots Hnf Hrin HIr Hmx Elm Hlm.
   unfold load_pickle.
   set (rN := r <| last_len := None |>).
   assert (HIN : Inv rN) by (by apply Inv_set_ll).
@@ -803,7 +806,7 @@ Proof.
   { intros k x Hx. apply lookup_singleton_Some in Hx as [<- <-].
     split; [by apply valid_1|]. by apply same_fun_term. }
   { rewrite lookup_singleton. by eexists. }
-  pose proof Hrecv1 as (HI1&_&_&Hoff1).
+  pose proof Hrecv1 as (HI1&_&_&Hoff1&_).
   set (r' := r1 <| last_len := last_len r |>).
   assert (Enodes : load_pickle_nodes pf levels r00 = (Ok umap, r')).
   { unfold load_pickle_nodes. rewrite (bind_ok _ _ _ _ _ Elm).
@@ -849,7 +852,7 @@ Proof.
       apply Hnode'. cbn. apply elem_of_list_fmap. by exists (k, u).
   - done.
   - exact He.
-  - destruct Hf as (_&?&?&?). by split_and!.
+  - destruct Hf as (_&?&?&?&?). by split_and!.
   - destruct roots as [|l|d]; constructor.
     + apply Forall2_fmap_r, Forall_Forall2_diag, Forall_forall.
       intros u Hu. by apply Hnode'.
@@ -893,7 +896,7 @@ Proof.
   destruct (pickle_var_loop (length (pf_vars pf)) (pf_vars pf) init r ∅) as (lm&Elm&Hlm&_);
     [|done|].
   { intros v i. by apply (vfile_lt s). }
-  destruct (load_pickle_from s pf roots true init r lm HI Hr Eroots Hnf Hrin HIr Elm)
+  destruct (load_pickle_from s pf roots true init r lm HI Hr Eroots Hnf Hrin HIr eq_refl Elm)
     as (roots'&s1&E&HI1&(_&Ev&El)&_&Hrel).
   { by apply (lm_true s (pf_vars pf)). }
   exists roots', s1. by split_and!.
@@ -904,13 +907,13 @@ Qed.
 Theorem pickle_roundtrip_into s roots order vorder pf sd r :
   Inv s → Forall (valid s) (roots_values roots) →
   dump_pickle roots order vorder s = (Ok pf, sd) →
-  Inv r → vars r = vars s → lvl2var r = lvl2var s →
+  Inv r → max_nodes r = None → vars r = vars s → lvl2var r = lvl2var s →
   sd = s ∧
   ∃ roots' r', load_pickle pf true r = (Ok roots', r') ∧
     Inv r' ∧ extends r r' ∧ frame r r' ∧ last_len r' = last_len r ∧
     roots_rel (same_fun s r') roots roots'.
 Proof.
-  intros HI Hr Hd HIr Ev El.
+  intros HI Hr Hd HIr Hmx Ev El.
   destruct (dump_pickle_inv s roots order vorder pf sd HI Hr Hd)
     as (->&Eroots&Hvl&Hnf&_&_&Hrin&_).
   split; [done|].
@@ -920,7 +923,7 @@ Proof.
   destruct (pickle_var_loop (length (pf_vars pf)) (pf_vars pf) r r ∅) as (lm&Elm&Hlm&_);
     [|done|].
   { intros v i. by apply (vfile_lt s). }
-  destruct (load_pickle_from s pf roots true r r lm HI Hr Eroots Hnf Hrin HIr Elm)
+  destruct (load_pickle_from s pf roots true r r lm HI Hr Eroots Hnf Hrin HIr Hmx Elm)
     as (roots'&r'&E&HI1&He&Hf&Hrel).
   { by apply (lm_true s (pf_vars pf)). }
   exists roots', r'. split_and!; try done. apply Hf.
@@ -930,14 +933,14 @@ Qed.
     dumped references come back (canonicity); the manager only grows (the
     loader creates the variable nodes and fills the computed table) *)
 Theorem pickle_roundtrip_same s roots order vorder pf sd :
-  Inv s → Forall (valid s) (roots_values roots) →
+  Inv s → max_nodes s = None → Forall (valid s) (roots_values roots) →
   dump_pickle roots order vorder s = (Ok pf, sd) →
   sd = s ∧
   ∃ s', load_pickle pf true s = (Ok roots, s') ∧
     Inv s' ∧ extends s s' ∧ frame s s' ∧ last_len s' = last_len s.
 Proof.
-  intros HI Hr Hd.
-  destruct (pickle_roundtrip_into s roots order vorder pf sd s HI Hr Hd HI eq_refl eq_refl)
+  intros HI Hmx Hr Hd.
+  destruct (pickle_roundtrip_into s roots order vorder pf sd s HI Hr Hd HI Hmx eq_refl eq_refl)
     as (->&roots'&s'&E&HI'&He&Hf&Hll&Hrel).
   split; [done|]. exists s'. split_and!; try done.
   rewrite E. f_equal. f_equal.
@@ -1039,7 +1042,7 @@ Qed.
 Theorem pickle_roundtrip_any s roots order vorder pf sd r :
   Inv s → Forall (valid s) (roots_values roots) →
   dump_pickle roots order vorder s = (Ok pf, sd) →
-  Inv r →
+  Inv r → max_nodes r = None →
   sd = s ∧
   ∃ roots' r', load_pickle pf false r = (Ok roots', r') ∧
     Inv r' ∧ frame r r' ∧ last_len r' = last_len r ∧
@@ -1050,7 +1053,7 @@ Theorem pickle_roundtrip_any s roots order vorder pf sd r :
     (dom (vars s) ## dom (vars r) →
      ∀ k v, vorder !! k = Some v → vars r' !! v = Some (nvars r + k)).
 Proof.
-  intros HI Hr Hd HIr.
+  intros HI Hr Hd HIr Hmx.
   destruct (dump_pickle_inv s roots order vorder pf sd HI Hr Hd)
     as (->&Eroots&Hvl&Hnf&_&Evo&Hrin&_).
   split; [done|].
@@ -1058,7 +1061,8 @@ Proof.
     as (lm&r1&Elm&HI1&Hf1&Hs1&Hlm&_&Hk1&Hid1&Hdom1&Hnew1).
   { by apply (vfile_NoDup2 s). }
   { intros v i. by apply (vfile_lt s). }
-  destruct (load_pickle_from s pf roots false r r1 lm HI Hr Eroots Hnf Hrin HI1 Elm)
+  destruct (load_pickle_from s pf roots false r r1 lm HI Hr Eroots Hnf Hrin HI1
+              (eq_trans (frame_max_nodes _ _ Hf1) Hmx) Elm)
     as (roots'&r'&E&HI'&He&Hf&Hrel).
   { intros i v Hv. apply (inv_vars _ HI) in Hv.
     destruct (Hlm v i) as (j&Hj&Hlj); [by apply Hvl|].
@@ -1088,15 +1092,15 @@ Qed.
 Theorem pickle_roundtrip_other_order s roots order vorder pf sd r :
   Inv s → Forall (valid s) (roots_values roots) →
   dump_pickle roots order vorder s = (Ok pf, sd) →
-  Inv r → dom (vars s) ⊆ dom (vars r) →
+  Inv r → max_nodes r = None → dom (vars s) ⊆ dom (vars r) →
   sd = s ∧
   ∃ roots' r', load_pickle pf false r = (Ok roots', r') ∧
     Inv r' ∧ extends r r' ∧ frame r r' ∧
     vars r' = vars r ∧ lvl2var r' = lvl2var r ∧ last_len r' = last_len r ∧
     roots_rel (same_fun s r') roots roots'.
 Proof.
-  intros HI Hr Hd HIr Hdom.
-  destruct (pickle_roundtrip_any s roots order vorder pf sd r HI Hr Hd HIr)
+  intros HI Hr Hd HIr Hmx Hdom.
+  destruct (pickle_roundtrip_any s roots order vorder pf sd r HI Hr Hd HIr Hmx)
     as (->&roots'&r'&E&HI'&Hf&Hll&_&_&_&Hrel&He&_).
   split; [done|]. exists roots', r'. specialize (He Hdom).
   pose proof He as (_&Ev&El). by split_and!.
@@ -1115,7 +1119,7 @@ Theorem pickle_roundtrip_fresh_names s roots order vorder pf sd :
     roots_rel (same_fun s s1) roots roots'.
 Proof.
   intros HI Hr Hd.
-  destruct (pickle_roundtrip_any s roots order vorder pf sd init HI Hr Hd Inv_init)
+  destruct (pickle_roundtrip_any s roots order vorder pf sd init HI Hr Hd Inv_init eq_refl)
     as (->&roots'&s1&E&HI1&_&_&_&Hdom&_&Hrel&_&Hnew).
   split; [done|]. exists roots', s1. split_and!; try done.
   - rewrite Hdom. change (vars init) with (∅ : gmap nat nat).
